@@ -74,3 +74,54 @@ pub fn run_stream(
     }
     st
 }
+
+/// Replay `seq` from a fresh instance and a fresh reference and judge only the last output
+/// (exhaustive enumerations call this for every sequence, so every prefix is judged exactly once).
+pub fn check_last(
+    rep: &mut Report,
+    property: &str,
+    oracle: &str,
+    p: &Params,
+    seq: &[In],
+    judge: &dyn Fn(&Params, &Out, &RefOut, &mut Judgements) -> usize,
+    js: &mut Judgements,
+) -> Option<(Out, RefOut)> {
+    let mut inst = Inst::new(p);
+    let mut rm = RefModel::new(p);
+    let mut last = None;
+    for (i, x) in seq.iter().enumerate() {
+        let r = rm.push(x);
+        match inst.feed(x) {
+            Ok(o) => last = Some((o, r)),
+            Err(pn) => {
+                panic_violation(rep, property, oracle, p, ops_json(&seq[..=i]), &pn.0);
+                return None;
+            }
+        }
+    }
+    let (out, r) = last?;
+    js.clear();
+    let sk = judge(p, &out, &r, js);
+    if sk > 0 {
+        rep.add("skipped_ill_conditioned_or_degenerate", sk as u64);
+    }
+    let t = seq.len();
+    settle(rep, property, oracle, p, phase(t, p.n()), t, js, &mut || ops_json(seq));
+    Some((out, r))
+}
+
+/// every sequence of length 1..=depth over `alphabet` whose first element has index `first`
+pub fn enum_sequences(alphabet: &[In], first: usize, depth: usize, f: &mut dyn FnMut(&[In])) {
+    fn rec(alphabet: &[In], depth: usize, seq: &mut Vec<In>, f: &mut dyn FnMut(&[In])) {
+        f(seq);
+        if seq.len() < depth {
+            for a in alphabet {
+                seq.push(*a);
+                rec(alphabet, depth, seq, f);
+                seq.pop();
+            }
+        }
+    }
+    let mut seq = vec![alphabet[first]];
+    rec(alphabet, depth, &mut seq, f);
+}
